@@ -138,5 +138,14 @@ _ROUND4 = {
     'C18': 'R18d: shards given by path are loaded through load_all_valid only; the unfiltered load_from_file is applied only to a file the same function has just written.',
     'C19': 'Also (R19f): the chunk cache\'s restart scan skips a leftover file whose name is not a cache item name instead of failing.',
 }
+_ROUND4['C05'] = 'Also (R05e): the shard-level query returns the complete answer of one matcher call, never a count and an entry from different candidates.'
+_ROUND4['C08'] = 'Also (R08h): every Ok of the sync and async single-chunk decoders is dominated by decoded length == the length declared in the chunk header.'
+_ROUND4['C09'] += ' (R09h): a record header is taken for the end-of-section bookend only by full-width equality with the all-ones hash.'
+_ROUND4['C13'] = 'Also (R13e): once get has found a tracked item, every path that retries or reports a miss first removes the item from the state (a vanished file does not leave a stale entry).'
+_ROUND4['C16'] = 'Also (R16h = C11-R11c): a session shard is exported to the persistent shard cache and registered there only after a successful upload_shard (not in a dry run).'
+_ROUND4['C07'] += ' (R07g): the end-exclusive chunk-range accessors reject a range for its end only where end > num_chunks and serve it only where end <= num_chunks.'
+_ROUND4['C10'] += ' (R10e): the two-way merge compares the full hashes of the records, never a truncated key.'
+_ROUND4['C18'] += ' (R18e = C09-R09b): the exporter advances its file entry index by the records it wrote.'
+_ROUND4['C20'] = 'R20c also covers early returns of the owner task through the ? operator.'
 for _k, _v in _ROUND4.items():
     CLAIMS[_k]['text'] += ' ' + _v
